@@ -139,6 +139,51 @@ def unparse(node: ast.AST) -> str:
 # ---------------------------------------------------------------------------
 
 
+def _splat_literal_dicts(tree: ast.AST) -> None:
+    """`kw = {'a': x, 'b': y}` ... `f(.., **kw)` in the same block, kw used nowhere else and nothing the values mention rebound in
+    between: the call is `f(.., a=x, b=y)` (the rules bind call arguments by name)."""
+    for fn in ast.walk(tree):
+        if not isinstance(fn, (ast.FunctionDef, ast.AsyncFunctionDef)):
+            continue
+        uses: Dict[str, int] = {}
+        for n in ast.walk(fn):
+            if isinstance(n, ast.Name):
+                uses[n.id] = uses.get(n.id, 0) + 1
+        for blk_owner in ast.walk(fn):
+            for fld in ("body", "orelse", "finalbody"):
+                blk = getattr(blk_owner, fld, None)
+                if not (isinstance(blk, list) and blk and isinstance(blk[0], ast.stmt)):
+                    continue
+                k = 0
+                while k < len(blk):
+                    st = blk[k]
+                    if isinstance(st, ast.Assign) and len(st.targets) == 1 and isinstance(st.targets[0], ast.Name) and isinstance(st.value, ast.Dict) and st.value.keys \
+                            and all(isinstance(q, ast.Constant) and isinstance(q.value, str) and q.value.isidentifier() for q in st.value.keys) and uses.get(st.targets[0].id) == 2:
+                        d = st.targets[0].id
+                        mentioned = {n.id for v in st.value.values for n in ast.walk(v) if isinstance(n, ast.Name)}
+                        done = False
+                        for j in range(k + 1, len(blk)):
+                            later = blk[j]
+                            calls = [c for c in ast.walk(later) if isinstance(c, ast.Call) and any(kw.arg is None and isinstance(kw.value, ast.Name) and kw.value.id == d for kw in c.keywords)]
+                            if calls and isinstance(later, (ast.Assign, ast.Expr, ast.Return, ast.AnnAssign)):
+                                c = calls[0]
+                                new_kw = []
+                                for kw in c.keywords:
+                                    if kw.arg is None and isinstance(kw.value, ast.Name) and kw.value.id == d:
+                                        new_kw += [ast.copy_location(ast.keyword(arg=q.value, value=v), kw.value) for q, v in zip(st.value.keys, st.value.values)]
+                                    else:
+                                        new_kw.append(kw)
+                                c.keywords = new_kw
+                                del blk[k]
+                                done = True
+                                break
+                            if any(isinstance(n, ast.Name) and isinstance(n.ctx, (ast.Store, ast.Del)) and n.id in mentioned for n in ast.walk(later)):
+                                break
+                        if done:
+                            continue
+                    k += 1
+
+
 class _SplitTupleAssign(ast.NodeTransformer):
     """`a, b = x, y` is `a = x; b = y` when no target is read on the right (not a swap): the rules look at one store at a
     time.  Name targets with arbitrary right-hand sides (evaluation order is kept); self.<attr> targets only with plain
@@ -205,6 +250,7 @@ class Program:
                 except SyntaxError as e:
                     raise AnalysisError(f"cannot parse {path}: {e}")
                 tree = _SplitTupleAssign().visit(tree)
+                _splat_literal_dicts(tree)
                 mod = Module(name, path, tree, src)
                 mod.is_pkg = fn == "__init__.py"
                 self.modules[name] = mod
